@@ -109,6 +109,10 @@ def delta(q, sym):
         if name == "can_be_called":
             return _set(q, cbc=val)
         if name == "is_saturated":
+            if d["inc"] == 0:
+                # the limit tests that decide what happens AFTER this call must see the count including it
+                q = _flag(q, "C06.c: the saturation test is evaluated before the call has been counted (it sees "
+                             "the count without this call, so an expectation that saturates now is not retired)")
             return _set(q, sat=val)
         if name == "is_satisfied":
             return _set(q, satf=val)
